@@ -247,6 +247,7 @@ func main() {
 		return
 	}
 	debug.SetMemoryLimit(2 << 30)
+	limitOwnMemory(8 << 30)
 	c := vlib.Init("C11")
 	defer c.Finish()
 	req := []string{"From Model Require Import C11_Metadata.", "From Coq Require Import Uint63."}
